@@ -27,7 +27,7 @@ open Mhd.ConnSM Mhd.Protocol Mhd.Gen.ConnState
 def treeCfg (uriLog allowSuspend epoll : Bool) : Cfg :=
   { uriLog := uriLog, allowSuspend := allowSuspend, epoll := epoll,
     f9Fixed := f9Fixed, allocBypassFixed := allocBypassFixed,
-    epollBypassFixed := epollBypassFixed, f14Fixed := f14Fixed }
+    epollBypassFixed := epollBypassFixed, f14Fixed := f14Fixed, f14ClearsAware := f14ClearsAware }
 
 /-- The callback log of every run respects the documented call protocol: start first; per request
     the first handler call comes from the first call site without upload data and sees the fresh
@@ -85,7 +85,8 @@ theorem closed_only_unaware {σ : Type} (cfg : Cfg) (app : App σ) (s : σ) (evs
 
 /-- With the four repairs in place there is no hypothesis left: every event sequence. -/
 theorem protocol_accepts_fixed {σ : Type} (cfg : Cfg) (h9 : cfg.f9Fixed = true) (ha : cfg.allocBypassFixed = true)
-    (he : cfg.epollBypassFixed = true) (h14 : cfg.f14Fixed = true) (app : App σ) (s : σ) (evs : List Ev) :
+    (he : cfg.epollBypassFixed = true) (h14 : cfg.f14Fixed = true ∧ cfg.f14ClearsAware = true)
+    (app : App σ) (s : σ) (evs : List Ev) :
     Protocol.accepts (run cfg app (Conn.init s) evs).2 ∧
     ((run cfg app (Conn.init s) evs).1.cleaned = true → Protocol.complete (run cfg app (Conn.init s) evs).2) :=
   ⟨protocol_accepts cfg app s evs (fun e _ => evOk_of_fixed cfg h9 ha he h14 e),
@@ -97,7 +98,8 @@ theorem tree_f9_fixed : f9Fixed = true := by decide
 
 /-- … and the other three repairs (allocation-failure exit and "release everything" branch of
     transmit_error_response_len, epoll_ctl failure exit of MHD_connection_epoll_update_). -/
-theorem tree_other_repairs : allocBypassFixed = true ∧ epollBypassFixed = true ∧ f14Fixed = true := by decide
+theorem tree_other_repairs :
+    allocBypassFixed = true ∧ epollBypassFixed = true ∧ f14Fixed = true ∧ f14ClearsAware = true := by decide
 
 /-- The theorem for the tree as it is: every configuration of the callbacks / polling mode, every
     application, every event sequence. -/
@@ -145,6 +147,14 @@ theorem witness_f14 :
         [.start, .recv [.line .ok, .headers .chunked true false, .chunkBad], .idle { errHdrFail1 := true }]).2 := by
   decide
 
+/-- F14 regression (seeded change C07_3): the completion callback runs in the "release everything"
+    branch but `client_aware` is not cleared: the notification fires a second time at close. -/
+theorem witness_f14_double_completion :
+    ¬ Protocol.accepts (run { f14ClearsAware := false } passive (Conn.init ())
+        [.start, .recv [.line .ok, .headers .chunked true false, .chunkBad], .idle { errHdrFail1 := true },
+         .write .done, .idle {}, .write .done, .idle {}]).2 := by
+  decide
+
 /-! ### non-vacuity -/
 
 /-- replies at the final call -/
@@ -165,6 +175,6 @@ example :
 
 example : ∀ e ∈ ([.start, .idle { timedOut := true, noSpace := true, chunkExt := true, errAllocFail := true,
                                   errHdrFail1 := true, epollAdd := some false }, .cleanup] : List Ev), EvOk {} e :=
-  fun e _ => evOk_of_fixed {} rfl rfl rfl rfl e
+  fun e _ => evOk_of_fixed {} rfl rfl rfl ⟨rfl, rfl⟩ e
 
 end Mhd.C05
